@@ -88,3 +88,12 @@ CASES += [
     t("frame frequencies bound to a differently named local", 
       "            with energy_units(\"int\"):\n                HOmega = ham.get_RWA_skeleton()\n", "            with energy_units(\"int\"):\n                HOmega = ham.get_RWA_skeleton()\n            nfreq = len(HOmega)\n"),
 ]
+
+CASES += [
+    m("apply() tests the time argument against a function (the repaired defect)", "C08-E",
+      "            elif isinstance(time, (list, numpy.ndarray, tuple, TimeAxis)):", "            elif isinstance(time, (list, numpy.array, tuple, TimeAxis)):"),
+    m("apply() tests the time argument against the TimeAxis constructor helper", "C08-E",
+      "            elif isinstance(time, (list, numpy.ndarray, tuple, TimeAxis)):", "            elif isinstance(time, (list, numpy.ndarray, tuple, numpy.linspace)):"),
+    t("kinds of time arguments listed in another order", 
+      "            elif isinstance(time, (list, numpy.ndarray, tuple, TimeAxis)):", "            elif isinstance(time, (TimeAxis, tuple, list, numpy.ndarray)):"),
+]
